@@ -68,8 +68,15 @@ def baseline(log):
     return res
 
 
+SIMPLE = False
+
+
 def run_demo(demo_dir, label):
     """runs build.sh with SRC pointing at the scratch worktree; if the script only builds, runs the demo binary too"""
+    if SIMPLE:
+        # second-round demonstrations: build.sh <source tree> builds, runs and exits non-zero on failure
+        rc, out = sh("bash ./build.sh %s" % WT, cwd=demo_dir, timeout=2400)
+        return rc, out[-1800:], None
     env = dict(os.environ, SRC=WT, BUILD_DIR=os.path.join(demo_dir, "_b_" + label), OUT=os.path.join(demo_dir, "_o_" + label),
                WORK=os.path.join(demo_dir, "_w_" + label), LIB_DIR=os.path.join(demo_dir, "_l_" + label), BUILD=os.path.join(demo_dir, "_bb_" + label))
     script = open(os.path.join(demo_dir, "build.sh")).read()
@@ -91,7 +98,9 @@ def run_demo(demo_dir, label):
 
 
 def main(argv):
+    global SIMPLE
     src, sid, prop = argv[1], argv[2], argv[3]
+    SIMPLE = "--simple" in argv
     checks = []
     if "--checks" in argv:
         checks = argv[argv.index("--checks") + 1].split(",")
